@@ -131,8 +131,8 @@ Proof.
   { induction ids0 as [|id ids0 IH]; intros acc A; cbn [fold_left]; [exact A|].
     apply IH. destruct acc as [[b1 pg1] o1]. cbn [snd] in *. unfold remove_session_sub.
     destruct (nget (b_subs b1) id) as [s|]; [|exact A].
-    match goal with |- context [if ?c then _ else _] => destruct c end; cbn [snd]; [|exact A].
-    apply ev_plain_app; [exact A|apply sub_meta_event_plain]. }
+    match goal with |- context [if ?c then _ else _] => destruct c end; cbn [snd];
+      repeat first [exact A | apply sub_meta_event_plain | apply ev_plain_app]. }
   apply G. apply ev_plain_nil.
 Qed.
 
@@ -291,7 +291,7 @@ Proof.
   set (r2 := r_set_testaments (r_set_clients r' (del_session (r_clients r') sid))
                               (ndel (r_testaments (r_set_clients r' (del_session (r_clients r') sid))) sid)).
   change (r_dealer r2) with (r_dealer r').
-  destruct (dealer_remove_session_dk (lookup r2) (r_dealer r') sid) as [[D1 _] D3].
+  destruct (dealer_remove_session_dk (lookup r2) (r_dealer r') sid) as [[D1 _ _] D3].
   destruct (dealer_remove_session (lookup r2) (r_dealer r') sid) as [[d o1] mps]. cbn [fst snd] in *.
   pose proof (broker_remove_session_plain (r_broker (r_set_dealer r2 d)) (r_pubgen (r_set_dealer r2 d)) sid) as B.
   destruct (broker_remove_session _ _ sid) as [[b pg] o2]. cbn [snd] in B.
@@ -380,8 +380,8 @@ Proof.
                                         | MError e => sync_error (r_dealer r1) meta_id invid [] e [] []
                                         end -> noev o1).
     { intros d o1 E. destruct resp.
-      - pose proof (sync_yield_dk (lookup r1) (r_dealer r1) meta_id invid [] args0 kw0) as [A _]. rewrite <- E in A. exact A.
-      - pose proof (sync_error_dk (r_dealer r1) meta_id invid [] err [] []) as [A _]. rewrite <- E in A. exact A. }
+      - pose proof (sync_yield_dk (lookup r1) (r_dealer r1) meta_id invid [] args0 kw0) as [A _ _]. rewrite <- E in A. exact A.
+      - pose proof (sync_error_dk (r_dealer r1) meta_id invid [] err [] []) as [A _ _]. rewrite <- E in A. exact A. }
     destruct (match resp with MYield a k0 => _ | MError e => _ end) as [d o1].
     specialize (G d o1 eq_refl).
     destruct kills as [[sids g]|]; [|cbn [snd]; apply ev_meta_plain, noev_plain; exact G].
@@ -389,6 +389,6 @@ Proof.
     destruct (kill_sessions_ev sids r (r_set_dealer r' d) g (sub_st_dealer _ _ d S) Hg) as [K _].
     destruct (kill_sessions (r_set_dealer r' d) sids g) as [r3 o2]. cbn [fst snd] in *.
     apply ev_meta_app; [apply ev_meta_plain, noev_plain; exact G|exact K].
-  - pose proof (sync_error_dk (r_dealer r') meta_id invid [] e_no_such_procedure [] []) as [A _].
+  - pose proof (sync_error_dk (r_dealer r') meta_id invid [] e_no_such_procedure [] []) as [A _ _].
     destruct (sync_error _ _ _ _ _ _ _) as [d o1]. cbn [fst snd] in *. apply ev_meta_plain, noev_plain; exact A.
 Qed.
